@@ -125,11 +125,15 @@ func Run(seed int64, tier, outDir string) (*emit.Summary, error) {
 	sum.Rule = "graph: one case = one digraph presented in several orders (runs) to graph.New/AddVertex/AddEdge/Sort: fixed corpus, " +
 		"exhaustive n<=3 x all permutations, seeded samples of 4/5-vertex digraphs (random density, 3 permutations), seeded random graphs of 6..40 mixed-kind vertices " +
 		"(half DAGs along a random ranking, half with self-loops/2-cycles/rings/back edges; duplicate AddEdge/AddVertex, vertices only introduced by AddEdge; 2 orders); " +
-		"objs: the same for graph.SortObjs on unstructured objects with depends-on annotations, plus random sets of 6..40 objects with Namespace objects and members, " +
-		"CRDs (with/without spec) and custom resources, external / duplicate references, unparsable annotations, duplicate objects, explicit and implicit cycles; " +
+		"objs: the same for graph.SortObjs AND graph.DependencyGraph (adjacency lists via Dependencies, error ids) on unstructured objects whose edges are written as depends-on references, " +
+		"as apply-time-mutation sources (group or apiVersion form, repeated sources) or both (every assignment for n<=2, one random assignment per 3-vertex digraph, half of the 4/5-vertex samples), " +
+		"a fixed corpus for the mutation pass (two failing passes, duplicate source, one edge through both annotations, namespace-less sourceRef, mutation-closed cycle, both annotations bad), " +
+		"plus random sets of 6..40 objects with Namespace objects and members, " +
+		"CRDs (with/without spec) and custom resources, external / duplicate references, unparsable annotations of both kinds, empty substitution lists, duplicate objects, explicit and implicit cycles " +
+		"(a random share 0/25/50/85% of the explicit dependencies of a set is written as mutation sources); " +
 		"misc: ReverseSortObjs next to SortObjs on a sample of those inputs, HydrateSetList on Sort() layers with object subsets, ReverseSetList, " +
 		"SortableMetas.Less on all ordered pairs of the pool, sort.Sort(SortableMetas) on random lists; " +
-		"evaluations = runs (one real Sort/SortObjs call each) + misc cases; non-trivial = at least one edge / annotation / non-empty list; distinct = distinct Coq case terms"
+		"evaluations = runs (one real Sort/SortObjs(+DependencyGraph) call each) + misc cases; non-trivial = at least one edge / annotation / non-empty list; distinct = distinct Coq case terms"
 	var samples []any
 	for _, s := range []*sink{h.gsinks[2], h.osinks[2], misc} {
 		if n := len(s.terms); n > 0 {
